@@ -8,7 +8,15 @@ def main(tier):
     ck.assumptions += ['definition shapes enumerated (chains of depth 3 under three namings, diamond, independent + undefined reference, quantifier braces around references); every iteration order of the three map loops of expandDefinitions is symbolic',
                        'definition lines reach expandDefinitions through a Go map, so the order in which they are written cannot matter once every map order is covered; the line-level part (a definition line contributes no entry) is decided for C03/C10 on parseLine']
     shapes = (2, 4, 5, 6, 7) if tier == 'quick' else (0, 1, 2, 3, 4, 5, 6, 7)
-    jobs = [('regex/parser.VerifC07Expand', dict(params={'shape': sh}, unwind=30, hooks={'choice_strings': True}, timeout_ms=240000, terminal_obligations=())) for sh in shapes]
+    jobs = [('regex/parser.VerifC07Expand', dict(params={'shape': sh}, unwind=30, hooks={'choice_strings': True, 'max_replace': 6}, timeout_ms=240000, terminal_obligations=())) for sh in shapes]
     rs, viol = ck.run('expandDefinitions-all-orders', jobs, bounds={'shapes': list(shapes)})
+    ck.triage(viol)
+    # the VALUE of a definition is symbolic text (metacharacters, `$`, backslashes, single braces), pasted directly (shape 0),
+    # through a second definition (1) and next to quantifier braces (2); all map orders symbolic as above
+    lens = {0: range(1, 6), 1: range(1, 3), 2: range(1, 5)} if tier == 'quick' else {0: range(1, 7), 1: range(1, 4), 2: range(1, 6)}
+    ck.assumptions.append('definition value: printable ASCII without blank and without `{{` (the property excludes references that only come into existence through a substitution); length bound per shape in bounds')
+    jobs = [('regex/parser.VerifC07ExpandValue', dict(params={'shape': sh}, fixlen={'val': L}, unwind=30, hooks={'choice_strings': True, 'max_replace': 6}, timeout_ms=240000, terminal_obligations=()))
+            for sh in (0, 1, 2) for L in lens[sh]]
+    rs, viol = ck.run('expandDefinitions-symbolic-value', jobs, bounds={'value_len_by_shape': {k: [min(v), max(v)] for k, v in lens.items()}})
     ck.triage(viol)
     return ck.finish()
